@@ -363,6 +363,12 @@ func runC08(c *Ctx, r *Report) {
 				okSort = true
 			}
 		}
+		// the counted form: sorted[i] read inside a loop after the sort
+		if ix, ok := n.(*ast.IndexExpr); ok && ix.Pos() > sortPos && len(enclosingLoops(p, tj, ix)) > 0 {
+			if id, ok := ast.Unparen(ix.X).(*ast.Ident); ok && sorted != nil && p.ObjOf(tj, id) == sorted {
+				okSort = true
+			}
+		}
 		return true
 	})
 	r.Check(okSort, "R-C08.3", r.Key("R-C08.3", tj, "heads-sorted", ""), tj.Body.Pos(), "the manifest's head list is built from the sorted slice", "ToJSONLog does not build the head list from a slice it sorted first: the manifest identifier depends on the order in which merges arrived")
